@@ -2,11 +2,12 @@ package rules
 
 import (
 	"fmt"
-	"os"
 	"go/constant"
 	"go/token"
 	"go/types"
+	"os"
 	"sort"
+	"strings"
 
 	"golang.org/x/tools/go/ssa"
 
@@ -67,6 +68,7 @@ func runC05(l *core.Ledger) {
 	l.With(map[string]string{"C07-E3": "C05-M11"}, func() { c07E3(l, r) })
 	l.Rule("C05-M12", "only the stream reader, on its own read error, answers calls it has no request in hand for (C10-N6 re-run): any other site that fails every pending call of a node hands made-up errors to calls whose requests are on a healthy stream, removes their routers, and their real replies are dropped")
 	l.With(map[string]string{"C10-N6": "C05-M12"}, func() { c10N6(l, r) })
+	c05M14(l, r)
 	l.Rule("C05-M13", "a reply to a call that is still running is delivered, and a reply to one that has completed is discarded at once (C09-W3 D1-D3 re-run): a delivery waits for the receiving call for as long as that call runs and no longer - given up earlier, replies of a live call are lost (and an error is lost with its router); not given up when the call completes, the node's reader stays parked under the router lock and no reply of that node reaches anyone")
 	if bd := boundedDelivery(l, r); true {
 		l.Check(bd.ok, "C05-M13", "gorums.(responseRouter).deliver/bounded-by-completion", token.NoPos, "deliveries wait exactly as long as the owning call runs", "deliveries to routers that can get several replies are not bounded by the completion of the owning call: "+bd.why)
@@ -621,5 +623,90 @@ func c05M9(l *core.Ledger, eps []*entryPoint, rule string) {
 			})
 			l.Check(ok, rule, key, c.Pos(), "false, or the call data's ServerStream", "the router is registered as streaming ("+sx.OriginsString(sx.Origins(flag))+") for a call whose nodes answer once: it survives the reply, and a later stream failure reports the same node a second time (reply and error for one node)")
 		}
+	}
+}
+
+// c05M14: bookkeeping next to the router map. A counter that is meant to equal
+// the number of routers (so that a reply can be dropped without the lock when
+// "nobody is waiting") must change exactly when the map changes: delete() of a
+// key that is not there is a no-op, a decrement next to it is not. Once the
+// counter has drifted below the number of routers, the reply to the only
+// outstanding call is dropped although its router is registered.
+func c05M14(l *core.Ledger, r *rt) {
+	l.Rule("C05-M14", "a counter kept next to the router map changes only when the map does: a removal that is accompanied by a counter update is known to remove an entry (it lies on the found edge of a lookup of the same id under the same hold of the lock, or its id comes from a range over the map)")
+	n := 0
+	for _, f := range allFuncs(l.Prog, r.pkg) {
+		f := f
+		sx.AllInstrs(f, func(nd sx.Node, in ssa.Instruction) {
+			c, ok := in.(*ssa.Call)
+			if !ok {
+				return
+			}
+			b, isB := c.Call.Value.(*ssa.Builtin)
+			if !isB || b.Name() != "delete" || len(c.Call.Args) != 2 {
+				return
+			}
+			if !sx.Any(sx.Origins(c.Call.Args[0]), sx.IsFieldNamed("responseRouters", sx.AnyOrigin)) {
+				return
+			}
+			// a counter update in the same block
+			counted := false
+			for _, in2 := range nd.B.Instrs {
+				if c2, ok := in2.(*ssa.Call); ok {
+					name := sx.StaticCalleeName(&c2.Call)
+					if strings.HasPrefix(name, "sync/atomic.Add") || (strings.Contains(name, "sync/atomic.") && strings.HasSuffix(name, ".Add")) {
+						counted = true
+					}
+				}
+				if st, ok := in2.(*ssa.Store); ok {
+					if fa, isFA := st.Addr.(*ssa.FieldAddr); isFA {
+						if fl := fieldOf(fa.X.Type(), fa.Field); fl != nil {
+							if bt, isBasic := fl.Type().Underlying().(*types.Basic); isBasic && bt.Info()&types.IsInteger != 0 {
+								if _, isBin := st.Val.(*ssa.BinOp); isBin {
+									counted = true
+								}
+							}
+						}
+					}
+				}
+			}
+			if !counted {
+				return
+			}
+			n++
+			key := c.Call.Args[1]
+			effective := sx.Any(sx.Origins(key), func(o sx.Origin) bool {
+				_, isNext := o.V.(*ssa.Next)
+				return isNext
+			})
+			if !effective {
+				sx.AllInstrs(f, func(_ sx.Node, in3 ssa.Instruction) {
+					ifi, ok := in3.(*ssa.If)
+					if !ok {
+						return
+					}
+					cv, _ := condOf(ifi)
+					ex, ok := cv.(*ssa.Extract)
+					if !ok || ex.Index != 1 {
+						return
+					}
+					lk, ok := ex.Tuple.(*ssa.Lookup)
+					if !ok || lk.Index != key && sx.OriginsString(sx.Origins(lk.Index)) != sx.OriginsString(sx.Origins(key)) {
+						return
+					}
+					if !sx.Any(sx.Origins(lk.X), sx.IsFieldNamed("responseRouters", sx.AnyOrigin)) {
+						return
+					}
+					if sx.EdgeDominates(f, edgeWhere(ifi, true), nd) {
+						effective = true
+					}
+				})
+			}
+			l.Check(effective, "C05-M14", fnKey(f)+"/counted-removal", c.Pos(), "the counted removal removes an entry",
+				"a router count is decremented next to a delete that may find nothing (the router was already removed by the delivery of an error, a late reply or a broken stream): the count drifts below the number of registered routers, and whatever is decided from it - a lock-free 'nobody is waiting' test in front of the lookup - drops the reply of a call whose router is registered")
+		})
+	}
+	if n == 0 {
+		l.OK("C05-M14", "no-router-counter", token.NoPos, "no counter is kept next to the router map")
 	}
 }
